@@ -560,23 +560,18 @@ def r9(ctx, retsets):
              ("unknown PDU type", {"type_unknown": True}, EC["unsupported pdu type"]),
              ("size inconsistent with type", {"size_bad": True}, EC["corrupt data"])]
     for name, cond, code in cells:
-        def oracle(inst, pred, a, b, E, cond=cond):
-            if is_h(a, "len") and b[0] == "c":
-                if pred == "ult":
-                    return bool(cond.get("len_small"))
-                if pred == "ugt":
-                    return bool(cond.get("len_big"))
-            if pred in ("eq", "ne") and ((is_h(a, "ver") and b == VERSION) or (is_h(b, "ver") and a == VERSION)):
-                d = bool(cond.get("ver_differs"))
-                return (not d) if pred == "eq" else d
-            if (is_h(a, "type") or is_h(b, "type")):
-                other = b if is_h(a, "type") else a
-                if other == ("c", 10) and pred in ("eq", "ne"):
-                    return pred == "ne"
-                if other[0] == "c" and pred in ("ugt", "sgt", "uge", "sge") and is_h(a, "type"):
-                    return bool(cond.get("type_unknown"))
-                if other[0] == "c" and pred in ("eq",):
-                    return False if not cond.get("type_unknown") else None
+        # the cell fixes the decoded header fields (and the negotiated version); every comparison over them is then decided by the
+        # evaluator however it is written
+        hv = {"len": 7 if cond.get("len_small") else (3249 if cond.get("len_big") else 20),
+              "ver": 0 if cond.get("ver_differs") else 1,
+              "type": 11 if cond.get("type_unknown") else 4}
+
+        def values(pe, hv=hv):
+            f = vf.last_field(pe) or ""
+            if f.startswith("pdu_header.") and vf.root_of(pe)[0] == "alloca":
+                return hv.get(f.split(".")[1])
+            if pe == ("fld", SOCK, "rtr_socket.version"):
+                return 1
             return None
 
         def classify(inst, E, st, cond=cond):
@@ -588,7 +583,8 @@ def r9(ctx, retsets):
                 if inst.callee in REPORTERS:
                     return ["code%s" % flow.av_single(E.val(inst.args[3]))]
             return None
-        outs, fl = es.count_effects(fn, pdb, classify, retsets, cell={("fld", SOCK, "rtr_socket.has_received_pdus"): 1, ("fld", SOCK, "rtr_socket.state"): 0}, oracle=oracle)
+        outs, fl = es.count_effects(fn, pdb, classify, retsets, cell={("fld", SOCK, "rtr_socket.has_received_pdus"): 1, ("fld", SOCK, "rtr_socket.state"): 0},
+                                    values=values, pinned=lambda pe: pe in (("fld", SOCK, "rtr_socket.has_received_pdus"), ("fld", SOCK, "rtr_socket.state")))
         codes = [sorted(k for k in o["counts"] if k.startswith("code")) for o in outs]
         good = bool(outs) and all(c == ["code%d" % code] for c in codes) and all(o["ret"] == flow.av_in(-1) for o in outs)
         ctx.check(good, "C14.R9", "receive[%s]" % name, "%s:%d" % (fn.relfile, fn.line), "reports %s, expected code %d" % (codes, code),
